@@ -185,18 +185,17 @@ Proof.
   rewrite (ident_not_colon x Hx). reflexivity.
 Qed.
 
-Lemma roundtrip_epoch e s : epoch_ok e = true -> ident_ok s = true ->
-  debversion_roundtrip (e ++ 58%N :: s) = Ok (e ++ 58%N :: s).
+Lemma roundtrip_epoch e c w : epoch_ok e = true -> forallb is_version_char (c :: w) = true ->
+  debversion_roundtrip (e ++ 58%N :: c :: w) = Ok (e ++ 58%N :: c :: w).
 Proof.
   intros He Hs. pose proof (epoch_ident e He) as Hei.
   unfold epoch_ok in He. andb_split He.
-  destruct (ident_ok_inv s Hs) as (c & w & -> & Hc & Hw).
   destruct (ident_ok_inv e Hei) as (e0 & e' & Ee & He0 & He'). subst e.
   unfold debversion_roundtrip. cbn [app].
   assert (Hall : forallb is_version_char ((e0 :: e') ++ 58%N :: c :: w) = true).
   { rewrite forallb_app. rewrite (ident_all_version (e0 :: e')) by (cbn [forallb]; rewrite He0, He'; reflexivity).
-    cbn [forallb andb]. change (is_version_char 58) with true. cbn [andb].
-    rewrite (ident_version_char c Hc), (ident_all_version w Hw). reflexivity. }
+    cbn [andb]. change (forallb is_version_char (58%N :: c :: w)) with (is_version_char 58 && forallb is_version_char (c :: w)).
+    rewrite Hs. reflexivity. }
   change (e0 :: e' ++ 58%N :: c :: w) with ((e0 :: e') ++ 58%N :: c :: w).
   rewrite Hall. cbn [negb].
   rewrite (span_app_stop is_digit (e0 :: e') (58%N :: c :: w) W1 eq_refl).
@@ -205,12 +204,25 @@ Proof.
   rewrite digits_uint_digits by exact W1. reflexivity.
 Qed.
 
-Lemma roundtrip_vtext v : opt_ok epoch_ok (v_epoch v) = true -> ident_ok (v_ver v) = true ->
-  debversion_roundtrip (vtext v) = Ok (vtext v).
+Lemma pieces_version_chars ps : forallb ident_ok ps = true ->
+  forallb is_version_char (flat_map (fun p => 58%N :: p) ps) = true.
 Proof.
-  intros He Hv. unfold vtext. destruct (v_epoch v) as [e|]; cbn [opt_ok] in He.
-  - rewrite <- app_assoc. cbn [app]. apply roundtrip_epoch; assumption.
-  - cbn [app]. apply roundtrip_plain, Hv.
+  induction ps as [|p r IH]; [reflexivity|]. cbn [forallb flat_map]. intros H. apply andb_true_iff in H. destruct H as [Hp Hr].
+  destruct (ident_ok_inv p Hp) as (c & w & -> & Hc & Hw).
+  change ((58%N :: c :: w) ++ flat_map (fun p => 58%N :: p) r) with (58%N :: (c :: w) ++ flat_map (fun p => 58%N :: p) r).
+  cbn [forallb]. change (is_version_char 58) with true. cbn [andb]. rewrite forallb_app, (IH Hr), andb_true_r.
+  apply ident_all_version. cbn [forallb]. rewrite Hc, Hw. reflexivity.
+Qed.
+
+Lemma roundtrip_vtext v : vclause_ok v = true -> debversion_roundtrip (vtext v) = Ok (vtext v).
+Proof.
+  intros H. destruct (vclause_ok_inv v H) as (_ & _ & _ & _ & He & Hv & Hm & Hnone).
+  unfold vtext. destruct (v_epoch v) as [e|]; cbn [opt_ok] in He.
+  - destruct (ident_ok_inv _ Hv) as (c & w & E & Hc & Hw). rewrite E. rewrite <- app_assoc. cbn [app].
+    apply roundtrip_epoch; [exact He|].
+    change (c :: w ++ flat_map (fun p => 58%N :: p) (v_more v)) with ((c :: w) ++ flat_map (fun p => 58%N :: p) (v_more v)).
+    rewrite forallb_app, (pieces_version_chars _ Hm), andb_true_r. apply ident_all_version. cbn [forallb]. rewrite Hc, Hw. reflexivity.
+  - rewrite (Hnone eq_refl). cbn [app flat_map]. rewrite app_nil_r. apply roundtrip_plain, Hv.
 Qed.
 
 Lemma vtext_nonempty v : ident_ok (v_ver v) = true -> vtext v <> [].
@@ -221,8 +233,18 @@ Qed.
 
 Lemma version_text_vtoks v : version_text_of (elems (vtext_toks v)) = vtext v.
 Proof.
-  unfold vtext_toks, vtext. destruct (v_epoch v) as [e|]; cbn; rewrite ?app_nil_r; [|reflexivity].
-  rewrite <- app_assoc. reflexivity.
+  assert (Hp : forall ps, version_text_of (elems (flat_map (fun p => [(COLON, [58%N]); (IDENT, p)]) ps)) = flat_map (fun p => 58%N :: p) ps).
+  { induction ps as [|p r IH]; [reflexivity|]. cbn [flat_map app]. 
+    change (elems ((COLON, [58%N]) :: (IDENT, p) :: ?x)) with (Tok COLON [58%N] :: Tok IDENT p :: elems x).
+    change (version_text_of (Tok COLON [58%N] :: Tok IDENT p :: ?x)) with ([58%N] ++ p ++ version_text_of x).
+    rewrite IH. reflexivity. }
+  unfold vtext_toks, vtext. destruct (v_epoch v) as [e|]; cbn [app].
+  - change (elems ((IDENT, e) :: (COLON, [58%N]) :: (IDENT, v_ver v) :: ?x)) with (Tok IDENT e :: Tok COLON [58%N] :: Tok IDENT (v_ver v) :: elems x).
+    change (version_text_of (Tok IDENT e :: Tok COLON [58%N] :: Tok IDENT (v_ver v) :: ?x)) with (e ++ [58%N] ++ v_ver v ++ version_text_of x).
+    rewrite Hp, <- app_assoc. reflexivity.
+  - change (elems ((IDENT, v_ver v) :: ?x)) with (Tok IDENT (v_ver v) :: elems x).
+    change (version_text_of (Tok IDENT (v_ver v) :: ?x)) with (v_ver v ++ version_text_of x).
+    rewrite Hp. reflexivity.
 Qed.
 
 Lemma acc_ver r last : wf_rel r = true ->
@@ -231,7 +253,7 @@ Proof.
   intros H. unfold wf_rel in H. andb_split H.
   unfold relation_version. rewrite fn_rel by discriminate. cbn [rkind_eqb rkind_code N.eqb Pos.eqb].
   destruct (r_ver r) as [v|]; cbn [option_map]; [|reflexivity].
-  cbn [opt_ok] in W2. unfold vclause_ok in W2. andb_split W2.
+  cbn [opt_ok] in W2. pose proof W2 as Hvok. destruct (vclause_ok_inv v W2) as (_ & _ & _ & _ & _ & W4 & _ & _).
   cbn [vnode children first_node_of_kind]. rewrite first_node_app, fn_ws.
   cbn [app first_node_of_kind rkind_eqb rkind_code N.eqb Pos.eqb].
   assert (E : version_text_of
@@ -245,7 +267,7 @@ Proof.
   destruct (vtext v) as [|c0 w0] eqn:Ev; [destruct (vtext_nonempty v W4 Ev)|]. rewrite <- Ev.
   replace (vop_of_text (text (Node CONSTRAINT (elems (vop_toks (v_op v)))))) with (Some (v_op v))
     by (destruct (v_op v); reflexivity).
-  rewrite (roundtrip_vtext v W5 W4). reflexivity.
+  rewrite (roundtrip_vtext v Hvok). reflexivity.
 Qed.
 
 (* ---- architectures ---- *)
